@@ -598,6 +598,48 @@ theorem radius_angle_inverse (k : ℕ) (hk : 3 ≤ k) (a : ℝ) (ha0 : 0 < a)
     field_simp
   rw [this, Real.arcsin_sin (by linarith) hα1.le]; ring
 
+/-- **the radius and angle formulas are mutual inverses** (radius side): for `n ≥ 3` and a radius
+`ρ > 0`, `regular_polygon_radius(n, polygon_interior_angle(n, ρ)) = ρ` -/
+theorem angle_radius_inverse (k : ℕ) (hk : 3 ≤ k) (ρ : ℝ) (hρ : 0 < ρ) :
+    polyRadius k (polyAngle k ρ) = ρ := by
+  have hk0 : (0 : ℝ) < k := by exact_mod_cast (by omega : 0 < k)
+  have hk3 : (3 : ℝ) ≤ k := by exact_mod_cast hk
+  have hγ0 : 0 < π / k := div_pos Real.pi_pos hk0
+  have hγ1 : π / k ≤ π / 3 := div_le_div_of_nonneg_left Real.pi_pos.le (by norm_num) hk3
+  have hsγ : 0 < Real.sin (π / k) := Real.sin_pos_of_pos_of_lt_pi hγ0 (by linarith [Real.pi_pos])
+  have hcγ : 0 < Real.cos (π / k) :=
+    Real.cos_pos_of_mem_Ioo ⟨by linarith [Real.pi_pos], by linarith [Real.pi_pos]⟩
+  have hs : 0 < Real.sinh ρ := Real.sinh_pos_iff.2 hρ
+  set g := Real.sin (π / k) ^ 2 with hg
+  set S := Real.sinh ρ ^ 2 with hS
+  have hg0 : 0 < g := by positivity
+  have hS0 : 0 < S := by positivity
+  have hden : 0 < 1 + g * S := by positivity
+  have hcos2 : Real.cos (π / k) ^ 2 = 1 - g := by
+    have := Real.sin_sq_add_cos_sq (π / k); rw [hg]; linarith
+  have hg1 : g < 1 := by nlinarith [sq_pos_of_pos hcγ]
+  set q := Real.cos (π / k) / Real.sqrt (1 + (Real.sin (π / k) * Real.sinh ρ) ^ 2) with hq
+  have hinner : 1 + (Real.sin (π / k) * Real.sinh ρ) ^ 2 = 1 + g * S := by rw [hg, hS]; ring
+  have hsq : 0 < Real.sqrt (1 + g * S) := Real.sqrt_pos.2 hden
+  have hq0 : 0 < q := by rw [hq, hinner]; positivity
+  have hq2 : q ^ 2 = (1 - g) / (1 + g * S) := by
+    rw [hq, hinner, div_pow, Real.sq_sqrt hden.le, hcos2]
+  have hq1 : q ≤ 1 := by
+    have : q ^ 2 ≤ 1 := by
+      rw [hq2, div_le_one hden]; nlinarith [mul_pos hg0 hS0]
+    nlinarith
+  unfold polyRadius polyAngle
+  rw [← hq]
+  have hhalf : 2 * Real.arcsin q / 2 = Real.arcsin q := by ring
+  rw [hhalf, Real.sin_arcsin (by linarith) hq1, Real.cos_arcsin,
+    Real.sq_sqrt (by nlinarith : (0 : ℝ) ≤ 1 - q ^ 2)]
+  have hterm : (1 - q ^ 2 - Real.sin (π / k) ^ 2) / (q * Real.sin (π / k)) ^ 2 = S := by
+    rw [mul_pow, ← hg, hq2]
+    have h1g : (1 - g) ≠ 0 := by linarith
+    field_simp
+    ring
+  rw [hterm, hS, Real.sqrt_sq hs.le, Real.arsinh_sinh]
+
 end real
 
 /-! ## non-vacuity -/
